@@ -79,8 +79,19 @@ class C02(Check):
         try:
             res = node.uni.res
             m = realcanon.Matcher(res, explicit_limit=3000)
-            for k, t in node.types.items():
+            from ..worlds.values import rebuild, CONTAINERS
+            for i, (k, t) in enumerate(node.types.items()):
                 m.message(k, k, t, docs=False)
+                # "every data type pydsdl can build": the same type built through the public constructors from its own
+                # attributes, handed over as some kind of iterable, has the same layout
+                kind = CONTAINERS[(len(k) + i) % len(CONTAINERS)]
+                try:
+                    new, _arg = rebuild(t, kind)
+                except Exception as ex:
+                    out.fail("C02.lenset", "%s: the public constructor rejected the type's own attributes handed over as a %s: %s: %s" % (k, kind, type(ex).__name__, ex), "ctor-raised:" + kind)
+                    continue
+                out.stats["rebuilt_through_public_constructor"] += 1
+                m.message("%s (rebuilt through the public constructor from a %s)" % (k, kind), k, new, docs=False)
             for b in m.bad[:5]:
                 oracle = "C02.prefix" if ("prefix" in b or "tag width" in b or "header" in b) else "C02.align" if "alignment" in b else "C02.extent" if "extent" in b else "C02.lenset"
                 out.fail(oracle, b, oracle.split(".")[1] + ":" + b.split(": ", 1)[-1].split(" ")[0])
